@@ -61,7 +61,7 @@ checks = {
   'technique': 'deterministic simulation with fault injection: seeded operation histories over a shared world (read-only digested arrays, reused trainers, global RNG) checked against a fresh-world replica, with injected interrupts, cancellations and LAPACK failures, and pairs of calls issued by two caller threads under a seeded pre-emption schedule',
   'level_claimed': {
    'category': 'exploration',
-   'text': 'Seeded search over histories of public API calls on one shared world: all arrays are handed over read-only and byte-digested after every operation, pooled models included (O1), every operation is repeated with the RNG restored (O2), compared bitwise with a fresh-world replica (O3: reused trainer / aligner == fresh one, or an explicit rejection after a dimension change), cACGMM split / restart schedules equal the uninterrupted fit bitwise (O4), operations with a given start leave the global RNG untouched (O5), no global numpy state leaks (O6), a sample of the calls is repeated at the end of the session (O7), pairs of calls run on two caller threads under a seeded schedule of pre-emptions (one baton, switches only at Python line events inside pb_bss) must each return what the call returns alone (O8), and a sample of whole runs is repeated in a pristine forked process (module-level state) - also after injected interrupts at Python line granularity, cancellations and LAPACK failures. Interrupt sites, LAPACK call indices and single pre-emption points of a fixed catalogue are enumerated completely.',
+   'text': 'Seeded search over histories of public API calls on one shared world: all arrays are handed over read-only and byte-digested after every operation, pooled models included (O1), every operation is repeated with the RNG restored (O2), compared bitwise with a fresh-world replica (O3: reused trainer / aligner == fresh one, or an explicit rejection after a dimension change), cACGMM split / restart schedules equal the uninterrupted fit bitwise (O4), operations with a given start leave the global RNG untouched (O5), no global numpy state leaks (O6), a sample of the calls is repeated at the end of the session (O7), pairs of calls run on two caller threads under a seeded schedule of pre-emptions (one baton, switches only at Python line events inside pb_bss) must each return what the call returns alone (O8; deciding for callers that share no object - only hidden module-level state can couple them -, by-catch for callers sharing one trainer / aligner object, whose thread-safety the property does not claim), and a sample of whole runs is repeated in a pristine forked process (module-level state) - also after injected interrupts at Python line granularity, cancellations and LAPACK failures. Interrupt sites, LAPACK call indices and single pre-emption points of a fixed catalogue are enumerated completely.',
    'design_ref': 'DESIGN.md §3.1'
   },
   'level_note': 'Trusts numpy/scipy determinism in one process with single-threaded BLAS (self-tested). Interrupts and thread switches are Python-line granular (NumPy calls are atomic); calls that draw from the global RNG are never paired across threads. The metrics of evaluation.wrapper that need optional dependencies (pesq, pystoi, mir_eval, srmr) are outside the catalogue.'
